@@ -115,6 +115,18 @@ MUTANTS = [
      "        out.write(variant.index.to_bytes(8, byteorder=\"little\"))",
      "        out.write(variant.index.to_bytes(8, byteorder=\"little\") if variant.index < 2 else variant.index.to_bytes(8, byteorder=\"big\"))",
      ["C08", "C07"]),
+    ("PRESERVING_section_scope_scans_all_intervals", "section.py",
+     "        for interval in self.byte_intervals_on(addrs):\n            yield from interval.byte_blocks_on(addrs)",
+     "        for interval in self.byte_intervals:\n            yield from interval.byte_blocks_on(addrs)",
+     []),  # reports blocks outside their interval's extent: allowed by C05
+    ("PRESERVING_sections_written_in_reverse_order", "module.py",
+     "        proto_module.sections.extend(s._to_protobuf() for s in self.sections)",
+     "        proto_module.sections.extend(s._to_protobuf() for s in reversed(list(self.sections)))",
+     []),
+    ("PRESERVING_rebuild_threshold_halved", "lazyintervaltree.py",
+     "        elif len(self._value_collection) <= len(self._interval_events):",
+     "        elif len(self._value_collection) <= 2 * len(self._interval_events):",
+     []),
     ("loader_skips_entry_point_kind_check", "module.py",
      "            if not isinstance(entry_point, CodeBlock):",
      "            if entry_point is None:",
@@ -170,7 +182,7 @@ def main():
                 t = subprocess.run(["/venv/bin/python", "-m", "pytest", "-q", "-p", "no:cacheprovider", "-x", "python/tests", "src/test/testInterop"], cwd="/repo", capture_output=True, text=True, env=dict(os.environ, PYTHONPATH=b, PYTHONDONTWRITEBYTECODE="1"))
                 tests = t.stdout.strip().splitlines()[-1]
                 shutil.rmtree(b, ignore_errors=True)
-            check_props = props or ["C05", "C06", "C12"]
+            check_props = props or (["C01", "C02", "C09"] if "written" in name else ["C05", "C06", "C12", "C13"])
             if args.props:
                 check_props = [p for p in args.props.split(",")]
             for p in check_props:
